@@ -39,9 +39,10 @@ impl Expansion {
 pub struct ArithExpr { pub id: int }
 impl ArithExpr {
     pub uninterp spec fn val(&self) -> i64;            // the value the expression evaluates to (abstract)
+    pub uninterp spec fn evaluates(&self) -> bool;     // whether its evaluation succeeds (abstract)
     #[verifier::external_body]
     pub fn eval(&self, shell: &mut Shell, params: &ExecutionParameters, trace: bool) -> (r: Result<i64, Error>)
-        ensures r is Ok ==> r->Ok_0 == self.val()
+        ensures r is Ok == self.evaluates(), r is Ok ==> r->Ok_0 == self.val()
     { unimplemented!() }
 }
 // projection of WordExpander
